@@ -25,7 +25,7 @@ struct Sub {
 struct App {
     char pc; int pi; int pi_nb; int pi_neg; int pi_frac;
     float pf; float pf_log; float pf_nb; float pf_unit;
-    bool pt; int po; int po_b; Opt4 po_e;
+    bool pt; int po; int po_b; Opt4 po_e; int po_gap; int po_ooo;
     char ps[16]; char ps4[4];
     float af[4]; int ai[5]; bool at[3]; int ao[3];
     Sub sub; Sub subs[3]; Sub *psub;
@@ -58,6 +58,8 @@ inline const rtosc::Ports App::ports = {
     rOption(po, rOptions(alpha, beta, gamma, delta), "option without bounds"),
     rOption(po_b, rOptions(alpha, beta, gamma, delta), rLinear(0, 3), "option with bounds"),
     rOption(po_e, rOptions(alpha, beta, gamma, delta), rLinear(0, 3), "enum-typed option"),
+    rOption(po_gap, rOpt(0, zero) rOpt(1, one) rOpt(4, four) rOpt(9, nine), rLinear(0, 9), "option with gaps in its numbering"),
+    rOption(po_ooo, rOpt(2, two) rOpt(0, zero) rOpt(1, one), "option listed out of numeric order"),
     rString(ps, 16, "string"),
     rString(ps4, 4, "short string"),
     rArrayF(af, 4, rLinear(-1, 1), "float array"),
@@ -90,6 +92,7 @@ struct Leaf {
     std::vector<std::string> opts; int slen;
     std::function<Val(App &)> get;
     bool log_scale = false;
+    std::vector<int> optidx;                          // index each option symbol denotes (empty: its position)
     char type() const { return kind == K_PARAM_C ? 'c' : kind == K_PARAM_F ? 'f' : kind == K_TOGGLE ? 'T' : kind == K_STRING ? 's' : 'i'; }
     bool numeric_or_option() const { return kind != K_TOGGLE && kind != K_STRING; }
 };
@@ -133,6 +136,9 @@ inline const std::vector<Leaf> &leaves() {
     add_sub_leaves(L, "/sub/", [](App &a) { return &a.sub; });
     for (int i = 0; i < 3; i++) add_sub_leaves(L, "/subs" + std::to_string(i) + "/", [i](App &a) { return &a.subs[i]; });
     add_sub_leaves(L, "/psub/", [](App &a) { return a.psub; });
+    // (appended last so that leaf indices in older replay files keep their meaning)
+    { Leaf l{"/po_gap", K_OPTION, true, true, "0", "9", {"zero", "one", "four", "nine"}, 0, [](App &a) { return vi(a.po_gap); }}; l.optidx = {0, 1, 4, 9}; L.push_back(l); }
+    { Leaf l{"/po_ooo", K_OPTION, false, false, "", "", {"two", "zero", "one"}, 0, [](App &a) { return vi(a.po_ooo); }}; l.optidx = {2, 0, 1}; L.push_back(l); }
     return L;
 }
 
@@ -181,7 +187,7 @@ struct Node {
         case K_PARAM_F: { float x = in.v.f; if (l.has_min && x < (float)atof(l.mn)) { x = (float)atof(l.mn); *was_clamped = true; } if (l.has_max && x > (float)atof(l.mx)) { x = (float)atof(l.mx); *was_clamped = true; } return vf(x); }
         case K_TOGGLE: return vb(in.tag == 'T');
         case K_OPTION: {
-            if (in.tag == 'S') { for (size_t i = 0; i < l.opts.size(); i++) if (l.opts[i] == in.v.s) return vi((int)i); return vi(INT_MIN); }
+            if (in.tag == 'S') { for (size_t i = 0; i < l.opts.size(); i++) if (l.opts[i] == in.v.s) return vi(l.optidx.empty() ? (int)i : l.optidx[i]); return vi(INT_MIN); }
             int x = in.v.i; if (l.has_min && x < atoi(l.mn)) { x = atoi(l.mn); *was_clamped = true; } if (l.has_max && x > atoi(l.mx)) { x = atoi(l.mx); *was_clamped = true; } return vi(x); }
         case K_STRING: { std::string s = in.v.s.substr(0, l.slen - 1); if (s.size() != in.v.s.size()) *was_clamped = true; return vs(s.c_str()); }
         }
